@@ -280,7 +280,7 @@ def verify_function(qualname: str, timeout_ms=20000, cross_check=False, only=Non
             st = State(env)
             for g, gexpr in c.where.items():
                 st.env[g] = it.ev_contract_expr(gexpr, st)
-            for r in c.requires:
+            for r in list(c.requires) + list(c.ghost_requires):
                 it.assume(st, it.ev_contract_expr(r, st))
             st.assumed = set()
             spec_env = dict(st.env)
